@@ -59,6 +59,7 @@ type gen struct {
 	r     *rng
 	w     *bufio.Writer
 	st    *stats
+	longColl string // non-empty: every collation string of the history starts with this very long stem
 	drain bool // after the main phases: delete every pool key, look at the empty tree, start over
 	wideColl bool   // collation pool of stem+ideograph strings (wide nodes)
 	collStem string
@@ -82,8 +83,12 @@ func (g *gen) alphaPool(n int) [][]byte {
 	r := g.r
 	var stems [][]byte
 	nst := 2 + r.n(4)
+	long := r.chance(8) // keys of 64 bytes and more
 	for i := 0; i < nst; i++ {
 		l := pick(r, stemLens)
+		if long {
+			l = pick(r, []int{63, 64, 65, 100, 130})
+		}
 		s := make([]byte, l)
 		base := pick(r, boundaryBytes)
 		for j := range s {
@@ -252,6 +257,9 @@ var collParts = []string{
 
 func (g *gen) collString() string {
 	r := g.r
+	if g.longColl != "" { // ~850 letters and a short tail: sort keys longer than 4096 bytes that differ near their end
+		return g.longColl + pick(r, []string{"", "e", "é", "E", "x", "ee", "Z", "é́"})
+	}
 	if g.wideColl { // one stem followed by one ideograph: up to 256 children under one sort-key byte
 		// ... sometimes followed by a letter in several case/accent variants: inner nodes BELOW the wide node
 		return g.collStem + string(rune(0x4E00+r.n(600))) + pick(r, []string{"", "", "e", "é", "E", "ee"})
@@ -373,7 +381,7 @@ func allKinds() []kindSpec {
 		{"coll", "string:root"}, {"coll", "string:de"}, {"coll", "string:sv"}, {"coll", "string:ennum"},
 		{"coll", "bytes:root"}, {"coll", "bytes:de"}, {"coll", "runes:root"},
 		{"comp", ""},
-		{"raw", ""},
+		{"raw", ""}, {"raw", "bytes"},
 	}
 }
 
@@ -418,7 +426,11 @@ func (g *gen) stops(p profile, approxLen int) string {
 	n := 1 + r.n(3)
 	var ss []string
 	for i := 0; i < n; i++ {
-		ss = append(ss, one())
+		if r.chance(12) { // nested: the sequence value ranged over again from inside its own loop body
+			ss = append(ss, "n"+strconv.Itoa(r.n(3)))
+		} else {
+			ss = append(ss, one())
+		}
 	}
 	return strings.Join(ss, "/")
 }
@@ -457,6 +469,15 @@ func (g *gen) history(tid string, ks kindSpec, prof string, nops int) {
 				nops = 3 * poolN
 			}
 			defer func() { g.wideColl = false }()
+		}
+		if !g.wideColl && r.chance(5) {
+			g.longColl = strings.Repeat(pick(r, []string{"resume", "Straße", "ab"}), 1)
+			for len(g.longColl) < 840 {
+				g.longColl += pick(r, []string{"resume", "cote", "ab", "zz"})
+			}
+			poolN = 6
+			nops = 40
+			defer func() { g.longColl = "" }()
 		}
 		col := strings.SplitN(ks.variant, ":", 2)[1]
 		if strings.HasPrefix(ks.variant, "runes") {
